@@ -408,3 +408,23 @@ example :
     live ((run pre).slot 7) 2 = true ∧ behind ((run pre).slot 7) 2 3 = true ∧ behind ((run pre).slot 7) 2 9 = true ∧
     (⟨7, .cancel 2⟩ : Act) ∉ acts ∧ 3 ∈ ((run (pre ++ acts.take 6)).slot 7).inside ∧
     2 ∈ ((run (pre ++ acts.take 2)).slot 7).inside := by decide
+
+/-! ## the rest of the anchored source, and the `asyncio.Lock` the model is written over -/
+
+/-- Re-read from `_keyed_lock.py` on every run: the constructor starts with no main lock and
+empty `_locks`/`_refs` (the model's `init`); `_get_main_lock` creates the main lock once and
+returns the same object afterwards (one `main` bit); the per-key lock is an `asyncio.Lock()`
+created only under `if key not in self._locks` (`register`); at refcount zero exactly
+`_locks[key]` and `_refs[key]` are deleted (`deregister`). -/
+theorem C25_source_shape_ext :
+    initEmptyState = true ∧ mainLockLazyOnce = true ∧ keyLockIsAsyncioLock = true ∧
+    createGuardedByAbsent = true ∧ delBothAtZero = true := by decide
+
+/-- Re-read from the `asyncio/locks.py` of the interpreter that runs the correspondence: the
+statements of `Lock.acquire`/`release`/`_wake_up_first` that `Lock.fastPath`, the FIFO append,
+`removeW` (in the `finally` around the single `await`), `wakeFirst` on the cancellation path only
+when unlocked, `release` and "wake only a head that is not done" are modelled after. -/
+theorem C25_asyncio_lock_shape :
+    lockFastPathShape = true ∧ lockAppendsFifo = true ∧ lockRemoveInFinally = true ∧
+    lockCancelWakesIfUnlocked = true ∧ lockReleaseShape = true ∧ lockWakeFirstShape = true ∧
+    lockAcquireAwaits = 1 := by decide
